@@ -241,7 +241,7 @@ class World:
 
     # ---- called by the seam (in the process thread) --------------------------------------
     def clock_delta(self):
-        k = self.ch.weighted("clock", [10, 3, 1, 1, 1] if self.clock_faults else [1], stream="clock")
+        k = self.ch.weighted("clock", [60, 8, 1, 1, 1] if self.clock_faults else [1], stream="clock")
         st = self.out.stats
         if k == 0:
             return 0.002
@@ -566,13 +566,19 @@ def _draw_spec(ch, label="defs"):
     return spec
 
 
-SAME_SIZE = ["v1", "v2", "v3", "v4", "v5", "v15", "v16", "v17"]      # same or nearly the same generated text: the most confusable
+SAME_SIZE = ["v1", "v2", "v3", "v4", "v5"]      # their generated modules have the same length: the most confusable
+GROUPS = [SAME_SIZE, ["v15", "v16", "v17"], ["v1", "v6", "v7", "v8", "v9", "v10"], VNAMES]
+HOME = [None]          # the group this run favours (drawn once per run by _home_group)
+
+
+def _home_group(ch):
+    """swarm style: a run concentrates on one set of mutually confusable declarations"""
+    HOME[0] = GROUPS[ch.weighted("home-group", [5, 2, 1, 3])]
 
 
 def _draw_variant(ch, label):
-    if ch.chance(label + "-confusable", 1, 2):
-        return SAME_SIZE[ch.draw(label + "-variant", len(SAME_SIZE))]
-    return VNAMES[ch.draw(label + "-variant", len(VNAMES))]
+    g = HOME[0] if (HOME[0] is not None and ch.chance(label + "-from-home-group", 3, 4)) else VNAMES
+    return g[ch.draw(label + "-variant", len(g))]
 
 
 def _pkts_listing(root):
@@ -612,7 +618,7 @@ class CacheSeqEngine(CacheEngineBase):
                    "code identity ignores file names and line numbers (a module differing only in comments is the same code)",
                    "the defining modules themselves (defs.py) are inputs, not part of the cache protocol"]
     expected_probes = ["cache-hit", "cache-rewrite", "pyc-accepted", "pyc-rejected", "orphan-pyc-at-load", "same-process-redefine",
-                       "name-collision-file", "janitor-restore", "bytecode-on", "bytecode-off"]
+                       "name-collision-file", "janitor-restore", "janitor-mixed-restore", "bytecode-on", "bytecode-off"]
 
     def execute(self, scenario, ch):
         out = Outcome()
@@ -621,6 +627,7 @@ class CacheSeqEngine(CacheEngineBase):
         world = World(self, ch, out, root, concurrent=False)
         ev = out.events.append
         nsteps = 2 + ch.draw("n-steps", 7)
+        _home_group(ch)
         spec = _draw_spec(ch)
         text = _write_defs(world, "defs", spec)
         xspec = None
@@ -633,7 +640,11 @@ class CacheSeqEngine(CacheEngineBase):
         had_cache_before_last = False
         violation = None
         for step in range(nsteps):
-            k = ch.weighted("step", [6, 3, 2, 3]) if defines else 0       # DEFINE EDIT TICK JANITOR
+            # DEFINE EDIT TICK JANITOR; what comes next leans on what just happened: an edit is usually followed by a
+            # run, a run by an edit or by something that disturbs the cache it has just left behind
+            prev = history[-1][0]
+            k = ch.weighted("step", {"EDIT": [10, 1, 1, 2], "EDITX": [10, 1, 1, 2], "DEFINE": [3, 4, 1, 5], "JANITOR": [8, 1, 1, 2],
+                                     "TICK": [6, 3, 1, 3]}[prev]) if defines else 0
             if step == nsteps - 1:
                 k = 0
             if k == 0:
@@ -681,7 +692,7 @@ class CacheSeqEngine(CacheEngineBase):
                 ev("TICK %+.1fs" % d)
                 history.append(("TICK", d))
             else:
-                j = ch.weighted("janitor", [3, 2, 1, 2, 8])
+                j = ch.weighted("janitor", [3, 2, 1, 2, 5, 6])
                 desc = self._janitor(world, root, j, backups, ch, st)
                 ev("JANITOR %s" % desc)
                 history.append(("JANITOR", desc))
@@ -781,6 +792,24 @@ class CacheSeqEngine(CacheEngineBase):
             return "touch .py (%d)" % n
         if not backups:
             return "restore: no backup yet"
+        if j == 5 and len(backups) >= 2:
+            # a sloppy restore from two backup generations: generated sources from one copy, bytecode from another,
+            # each with its old mtime (the most confusable state a cache directory can be brought into)
+            st["probe:janitor-mixed-restore"] += 1
+            a = ch.draw("py-from-backup", len(backups))
+            b = (a + 1 + ch.draw("pyc-from-backup", len(backups) - 1)) % len(backups)
+            n = 0
+            for files, suffix in ((backups[a], ".py"), (backups[b], ".pyc")):
+                for rel, data, mtime in files:
+                    if not rel.endswith(suffix):
+                        continue
+                    p = os.path.join(root, rel)
+                    os.makedirs(os.path.dirname(p), exist_ok=True)
+                    with REAL_IO_OPEN(p, "wb") as f:
+                        f.write(data)
+                    REAL["utime"](p, (mtime, mtime))
+                    n += 1
+            return "restore .py from copy %d and .pyc from copy %d (%d files, old mtimes)" % (a, b, n)
         st["probe:janitor-restore"] += 1
         # prefer a copy whose generated module is not the one on disk now (the interesting restores)
         cur = {rel: data for rel, data, _ in self._backup(root) if rel.endswith(".py")}
@@ -833,6 +862,7 @@ class CacheConcEngine(CacheEngineBase):
         ev = out.events.append
         root = project.fresh_dir(os.path.join(self.wdir, "p16"))
         world = World(self, ch, out, root, concurrent=False)
+        _home_group(ch)
         # ---- prior state
         if ch.chance("prior-state", 2, 3):
             pspec = _draw_spec(ch, "prior")
@@ -855,7 +885,7 @@ class CacheConcEngine(CacheEngineBase):
         ev("defs.py := %s" % (spec,))
         # ---- concurrent phase
         nproc = 2 + ch.weighted("n-procs", [3, 1])
-        if focus == "colliding-writers" or ch.chance("colliding-identities", 1, 8):
+        if focus == "colliding-writers" or ch.chance("colliding-identities", 1, 5):
             # pid namespaces (containers sharing the directory) + a seeded random module: whatever the library
             # derives from pid and random (temporary file names) is the same in every process
             world.same_pid = world.same_random_seed = True
